@@ -131,14 +131,15 @@ Proof.
 Qed.
 
 Lemma reach_closed_all : all_params (fun p => closed p (reach p)) = true.
-Proof. vm_compute. reflexivity. Qed.
+Proof. vm_cast_no_check (eq_refl true). Qed.
 
 Lemma reach_closed p : closed p (reach p) = true.
 Proof. apply (all_params_sound _ reach_closed_all). Qed.
 
 
-Lemma cfg_reach : all_params (fun p => forallb (fun s => if params_eq_dec (cfg s) p then true else false) (reach p)) = true.
-Proof. vm_compute. reflexivity. Qed.
+Definition chk_cfg (p : params) (s : st) : bool := if params_eq_dec (cfg s) p then true else false.
+Lemma cfg_reach : all_params (fun p => forallb (chk_cfg p) (reach p)) = true.
+Proof. vm_cast_no_check (eq_refl true). Qed.
 
 Lemma implb_elim a b : implb a b = true -> a = true -> b = true.
 Proof. intros H ->. exact H. Qed.
@@ -250,15 +251,298 @@ Definition chk_safe (s : st) : bool := negb (uaf (g s)) && negb (bad (g s)).
 Definition chk_progress (s : st) : bool :=
   quiescent s || existsb (fun t => match step t s with Some _ => true | None => false end) [0; 1; 2].
 
-Lemma fixed_deleted : all_params (fun p => implb true (forallb chk_deleted (reach p))) = true.
-Proof. vm_compute. reflexivity. Qed.
+Lemma chk_deleted_ok : all_params (fun p => implb true (forallb chk_deleted (reach p))) = true.
+Proof. vm_cast_no_check (eq_refl true). Qed.
 Lemma chk_member_ok : all_params (fun p => implb (p_fixed p || away7 p) (forallb chk_member (reach p))) = true.
-Proof. vm_compute. reflexivity. Qed.
+Proof. vm_cast_no_check (eq_refl true). Qed.
 Lemma chk_result_ok : all_params (fun p => implb true (forallb chk_result (reach p))) = true.
-Proof. vm_compute. reflexivity. Qed.
+Proof. vm_cast_no_check (eq_refl true). Qed.
 Lemma chk_stops_ok : all_params (fun p => implb true (forallb chk_stops (reach p))) = true.
-Proof. vm_compute. reflexivity. Qed.
+Proof. vm_cast_no_check (eq_refl true). Qed.
 Lemma chk_safe_ok : all_params (fun p => implb (p_fixed p || away13 p) (forallb chk_safe (reach p))) = true.
-Proof. vm_compute. reflexivity. Qed.
+Proof. vm_cast_no_check (eq_refl true). Qed.
 Lemma chk_progress_ok : all_params (fun p => implb true (forallb chk_progress (reach p))) = true.
-Proof. vm_compute. reflexivity. Qed.
+Proof. vm_cast_no_check (eq_refl true). Qed.
+
+(* ------------------------------------------------------------------------------------------ *)
+(* from the checkers to propositions                                                          *)
+
+Lemma members_eqb_eq a b : members_eqb a b = true -> a = b.
+Proof. unfold members_eqb. destruct (list_eq_dec member_eq_dec a b); [auto|discriminate]. Qed.
+Lemma results_eqb_eq a b : results_eqb a b = true -> a = b.
+Proof. unfold results_eqb. destruct (list_eq_dec result_eq_dec a b); [auto|discriminate]. Qed.
+Lemma prog_eqb_eq a b : prog_eqb a b = true -> a = b.
+Proof. unfold prog_eqb. destruct (prog_eq_dec a b); [auto|discriminate]. Qed.
+Lemma prog_eqb_neq a b : prog_eqb a b = false -> a <> b.
+Proof. unfold prog_eqb. destruct (prog_eq_dec a b); [discriminate|auto]. Qed.
+
+Definition final (p : params) (sched : list nat) : st := fst (run step sched (init p, [])).
+
+Lemma cfg_final p sched : cfg (final p sched) = p.
+Proof.
+  pose proof (reach_forall p (reach p) (chk_cfg p) (reach_closed p)
+                (all_params_sound _ cfg_reach p) sched []) as H.
+  unfold final. unfold chk_cfg in H.
+  destruct (params_eq_dec (cfg (fst (run step sched (init p, [])))) p); [auto|discriminate].
+Qed.
+
+Section Main.
+  Variable p : params.
+  Variable sched : list nat.
+  Let s := final p sched.
+
+  (* 1. the shared state is deleted at most once, and exactly once when everybody is done:
+        holds for the code as written and for the fixed code *)
+  Theorem deleted_once :
+    deleted (g s) <= 1 /\ (quiescent s = true -> deleted (g s) = 1).
+  Proof.
+    pose proof (all_runs (fun _ => true) chk_deleted chk_deleted_ok p sched [] eq_refl) as H.
+    fold (final p sched) in H. fold s in H. unfold chk_deleted in H.
+    apply andb_true_iff in H as [H1 H2]. apply Nat.leb_le in H1. split; [exact H1|].
+    intros Hq. rewrite Hq in H2. apply Nat.eqb_eq in H2. exact H2.
+  Qed.
+
+  (* 2. a destructor runs on a result member at most once, only on the member that was
+        constructed, and at quiescence exactly the constructed member has been destroyed *)
+  Theorem result_destroyed_once_and_matching :
+    p_fixed p || away7 p = true ->
+    (destroyed (g s) = [] \/ exists c, constructed (g s) = Some c /\ destroyed (g s) = [c]) /\
+    (quiescent s = true ->
+       destroyed (g s) = match constructed (g s) with Some c => [c] | None => [] end).
+  Proof.
+    intros Hc.
+    pose proof (all_runs (fun p => p_fixed p || away7 p) chk_member chk_member_ok p sched [] Hc) as H.
+    fold (final p sched) in H. fold s in H. unfold chk_member in H.
+    apply andb_true_iff in H as [H1 H2]. split.
+    - apply orb_true_iff in H1 as [H1|H1]; apply members_eqb_eq in H1; [left; exact H1|].
+      unfold expected_destroyed in H1. destruct (constructed (g s)) as [c|]; [right; eauto|left; exact H1].
+    - intros Hq. rewrite Hq in H2. apply members_eqb_eq in H2. exact H2.
+  Qed.
+
+  (* 3. the awaiting receiver is completed at most once; at quiescence exactly once (never for a
+        dropped future) with: done if the future was cancelled before the result was available
+        (abandon won the race from init), otherwise the operation's own result -- a result that is
+        already there wins over a stop request.  Exactly one of abandon / complete wins. *)
+  Theorem future_result :
+    length (roots (g s)) <= 1 /\
+    (roots (g s) = [] \/
+     roots (g s) = [if ab_won (g s) then RDone else expected p]) /\
+    (quiescent s = true ->
+       roots (g s) = match p_prog p with
+                     | PDrop => []
+                     | _ => [if ab_won (g s) then RDone else expected p]
+                     end) /\
+    (ab_won (g s) = true -> ext_stop (m s) = true /\ p_prog p = PStop) /\
+    (ab_won (g s) = true -> op_won (g s) = true -> False) /\
+    (quiescent s = true -> p_prog p <> PDrop -> ab_won (g s) = true \/ op_won (g s) = true).
+  Proof.
+    pose proof (all_runs (fun _ => true) chk_result chk_result_ok p sched [] eq_refl) as H.
+    fold (final p sched) in H. fold s in H. unfold chk_result in H.
+    pose proof (cfg_final p sched) as Hcfg. fold s in Hcfg.
+    apply andb_true_iff in H as [H HF]. apply andb_true_iff in H as [H HE].
+    apply andb_true_iff in H as [H HD]. apply andb_true_iff in H as [H HC].
+    apply andb_true_iff in H as [HA HB].
+    unfold expected_roots in *. rewrite Hcfg in *.
+    split; [apply Nat.leb_le; exact HA|].
+    split.
+    { apply orb_true_iff in HC as [HC|HC]; apply results_eqb_eq in HC; [left; exact HC|].
+      destruct (p_prog p); [left|right|right]; exact HC. }
+    split.
+    { intros Hq. rewrite Hq in HB. apply results_eqb_eq. exact HB. }
+    split.
+    { intros Ha. rewrite Ha in HD. cbn in HD. apply andb_true_iff in HD as [HD1 HD2].
+      split; [exact HD1|apply prog_eqb_eq; exact HD2]. }
+    split.
+    { intros Ha Ho. rewrite Ha, Ho in HE. discriminate. }
+    intros Hq Hne. rewrite Hq in HF. cbn [andb] in HF.
+    destruct (prog_eqb (p_prog p) PDrop) eqn:E; [apply prog_eqb_eq in E; contradiction|].
+    cbn in HF. apply orb_true_iff. exact HF.
+  Qed.
+
+  (* 4. dropping or cancelling the future requests stop on the spawned operation: whenever the
+        operation finds the future gone (its CAS from init fails), whenever drop saw init and
+        whenever abandon won, stopSource_.request_stop has been called by quiescence; and nobody
+        else ever requests it *)
+  Theorem drop_or_cancel_stops_op :
+    (quiescent s = true ->
+       (op_won (g s) = false -> src_stop (g s) = true) /\
+       (drop_init (g s) = true -> src_stop (g s) = true) /\
+       (ab_won (g s) = true -> src_stop (g s) = true)) /\
+    (src_stop (g s) = true -> p_prog p = PDrop \/ ext_stop (m s) = true).
+  Proof.
+    pose proof (all_runs (fun _ => true) chk_stops chk_stops_ok p sched [] eq_refl) as H.
+    fold (final p sched) in H. fold s in H. unfold chk_stops in H.
+    pose proof (cfg_final p sched) as Hcfg. fold s in Hcfg. rewrite Hcfg in H.
+    apply andb_true_iff in H as [H1 H2]. split.
+    - intros Hq. rewrite Hq in H1.
+      apply andb_true_iff in H1 as [H1 H3]. apply andb_true_iff in H1 as [H1 H4].
+      repeat split; intros Hx; rewrite Hx in *; cbn in *; assumption.
+    - intros Hx. rewrite Hx in H2. cbn in H2. apply orb_true_iff in H2 as [H2|H2];
+        [left; apply prog_eqb_eq; exact H2|right; exact H2].
+  Qed.
+
+  (* 5. no step touches the shared state after it was freed, and no branch guarded by an
+        assertion / std::terminate is taken *)
+  Theorem no_access_after_delete :
+    p_fixed p || away13 p = true -> uaf (g s) = false /\ bad (g s) = false.
+  Proof.
+    intros Hc.
+    pose proof (all_runs (fun p => p_fixed p || away13 p) chk_safe chk_safe_ok p sched [] Hc) as H.
+    fold (final p sched) in H. fold s in H. unfold chk_safe in H.
+    apply andb_true_iff in H as [H1 H2]. split; apply negb_true_iff; assumption.
+  Qed.
+
+  (* 6. no deadlock: in a non-quiescent reachable state some thread can move *)
+  Theorem progress : quiescent s = false -> exists t, step t s <> None.
+  Proof.
+    intros Hq.
+    pose proof (all_runs (fun _ => true) chk_progress chk_progress_ok p sched [] eq_refl) as H.
+    fold (final p sched) in H. fold s in H. unfold chk_progress in H. rewrite Hq in H.
+    cbn [orb] in H. apply existsb_exists in H as (t & _ & Ht). exists t.
+    destruct (step t s); [discriminate|discriminate Ht].
+  Qed.
+End Main.
+
+(* ------------------------------------------------------------------------------------------ *)
+(* trace level                                                                                *)
+
+Definition root_evs (tr : list ev) : list result :=
+  flat_map (fun e => match e with ERoot r => [r] | _ => [] end) tr.
+Definition is_dealloc (e : ev) : bool := match e with EDealloc => true | _ => false end.
+(* events that access the shared state *)
+Definition shared_ev (e : ev) : bool :=
+  match e with
+  | EStL _ | EStS _ | EStC _ _ _ _ | EEvX _ | EEvL _ | EEvC _ _ | ESrcSet | ESrcEnd
+  | EValCtor | EValDtor _ => true
+  | _ => false
+  end.
+Definition no_shared (tr : list ev) : bool := forallb (fun e => negb (shared_ev e)) tr.
+(* nothing touches the shared state after the first deallocation *)
+Fixpoint trace_safe (tr : list ev) : bool :=
+  match tr with
+  | [] => true
+  | e :: r => if is_dealloc e then no_shared r else trace_safe r
+  end.
+
+Lemma root_evs_app a b : root_evs (a ++ b) = root_evs a ++ root_evs b.
+Proof. unfold root_evs. apply flat_map_app. Qed.
+
+Definition R_roots (s s' : st) (evs : list ev) : bool :=
+  results_eqb (roots (g s')) (rev (root_evs evs) ++ roots (g s)).
+Definition R_dealloc (s s' : st) (evs : list ev) : bool :=
+  deleted (g s') =? deleted (g s) + length (filter is_dealloc evs).
+Definition R_safe (s s' : st) (evs : list ev) : bool :=
+  (if freed (g s) then no_shared evs else trace_safe evs) &&
+  implb (existsb is_dealloc evs) (freed (g s')) && implb (freed (g s)) (freed (g s')).
+
+Lemma R_roots_ok : all_params (fun p => implb true (forallb (step_checked R_roots) (reach p))) = true.
+Proof. vm_cast_no_check (eq_refl true). Qed.
+Lemma R_dealloc_ok : all_params (fun p => implb true (forallb (step_checked R_dealloc) (reach p))) = true.
+Proof. vm_cast_no_check (eq_refl true). Qed.
+Lemma R_safe_ok : all_params (fun p => implb (p_fixed p || away13 p) (forallb (step_checked R_safe) (reach p))) = true.
+Proof. vm_cast_no_check (eq_refl true). Qed.
+
+(* the ERoot events of the trace are the recorded completions, in order *)
+Theorem trace_roots p sched :
+  let c := run step sched (init p, []) in root_evs (snd c) = rev (roots (g (fst c))).
+Proof.
+  cbv zeta.
+  apply (conf_inv (fun _ => true) R_roots
+           (fun c => root_evs (snd c) = rev (roots (g (fst c)))) R_roots_ok); [|reflexivity|reflexivity].
+  intros c s' evs HR HQ. cbn [fst snd]. unfold R_roots in HR. apply results_eqb_eq in HR.
+  rewrite root_evs_app, HQ, HR, rev_app_distr, rev_involutive. reflexivity.
+Qed.
+
+(* the EDealloc events of the trace are counted by deleted *)
+Theorem trace_deallocs p sched :
+  let c := run step sched (init p, []) in
+  length (filter is_dealloc (snd c)) = deleted (g (fst c)).
+Proof.
+  cbv zeta.
+  apply (conf_inv (fun _ => true) R_dealloc
+           (fun c => length (filter is_dealloc (snd c)) = deleted (g (fst c))) R_dealloc_ok);
+    [|reflexivity|reflexivity].
+  intros c s' evs HR HQ. cbn [fst snd]. unfold R_dealloc in HR. apply Nat.eqb_eq in HR.
+  rewrite filter_app, app_length, HQ, HR. reflexivity.
+Qed.
+
+Lemma no_shared_app a b : no_shared (a ++ b) = no_shared a && no_shared b.
+Proof. unfold no_shared. apply forallb_app. Qed.
+
+Lemma trace_safe_app_noshared a b :
+  trace_safe a = true -> no_shared b = true -> trace_safe (a ++ b) = true.
+Proof.
+  induction a as [|e r IH]; cbn; intros Ha Hb.
+  - destruct b as [|e b]; [reflexivity|]. cbn in *. apply andb_true_iff in Hb as [He Hb].
+    destruct (is_dealloc e); [exact Hb|].
+    clear He. induction b as [|e' b IHb]; [reflexivity|]. cbn in *.
+    apply andb_true_iff in Hb as [_ Hb]. destruct (is_dealloc e'); auto.
+  - destruct (is_dealloc e).
+    + rewrite no_shared_app, Ha, Hb. reflexivity.
+    + auto.
+Qed.
+
+Lemma trace_safe_app_fresh a b :
+  existsb is_dealloc a = false -> trace_safe (a ++ b) = trace_safe b.
+Proof.
+  induction a as [|e r IH]; cbn; [reflexivity|]. intros H.
+  apply orb_false_iff in H as [He Hr]. rewrite He. auto.
+Qed.
+
+(* trace form of 5: after the EDealloc event no event of the trace accesses the shared state *)
+Theorem trace_no_access_after_delete p sched :
+  p_fixed p || away13 p = true ->
+  trace_safe (snd (run step sched (init p, []))) = true.
+Proof.
+  intros Hc.
+  assert (H : trace_safe (snd (run step sched (init p, []))) = true /\
+              (freed (g (fst (run step sched (init p, [])))) = false ->
+               existsb is_dealloc (snd (run step sched (init p, []))) = false)).
+  { apply (conf_inv (fun p => p_fixed p || away13 p) R_safe
+             (fun c => trace_safe (snd c) = true /\
+                       (freed (g (fst c)) = false -> existsb is_dealloc (snd c) = false))
+             R_safe_ok); [|exact Hc|split; reflexivity].
+    intros c s' evs HR [HQ1 HQ2]. cbn [fst snd]. unfold R_safe in HR.
+    apply andb_true_iff in HR as [HR H3]. apply andb_true_iff in HR as [H1 H2].
+    destruct (freed (g (fst c))) eqn:Ef.
+    - cbn in H3. split; [apply trace_safe_app_noshared; assumption|].
+      intros Hx. rewrite H3 in Hx. discriminate.
+    - specialize (HQ2 eq_refl). split.
+      + rewrite trace_safe_app_fresh; assumption.
+      + intros Hx. rewrite Hx in H2. rewrite existsb_app, HQ2. cbn [orb].
+        destruct (existsb is_dealloc evs); [discriminate H2|reflexivity]. }
+  tauto.
+Qed.
+
+(* ------------------------------------------------------------------------------------------ *)
+(* the code as written violates two of the statements (findings 7 and 13)                    *)
+
+Definition p_finding7 : params := {| p_fixed := false; p_out := OVal; p_fault := true; p_prog := PDrop |}.
+Definition p_finding13 : params := {| p_fixed := false; p_out := OVal; p_fault := false; p_prog := PStop |}.
+
+(* Op: CAS init -> value ; Fut: drop loads value ; Op: the copy throws, store error, error_
+   constructed, evt_.set ; Fut: evt_.ready, deleter_ value: destroys the never-constructed
+   values_ and leaks error_ *)
+Definition sched_finding7 : list nat := [0; 1; 0; 0; 1].
+
+Theorem result_destroyed_matching_refuted :
+  exists sched,
+    let s := final p_finding7 sched in
+    quiescent s = true /\ constructed (g s) = Some MErr /\ destroyed (g s) = [MVal] /\
+    In (EValDtor false) (snd (run step sched (init p_finding7, []))).
+Proof. exists sched_finding7. vm_compute. repeat split; auto 10. Qed.
+
+(* Fut: connect (callback registered), start (waiter pushed) ; Op: CAS init -> value, evt_.set
+   (continuation posted) ; Fut: continuation loads value, deleter_ ; Stop: request_stop pops
+   the still registered callback, unlocks, abandon: CAS on the freed state_ *)
+Definition sched_finding13 : list nat := [1; 1; 1; 1; 0; 0; 1; 2; 2; 2].
+
+Theorem no_access_after_delete_refuted :
+  exists sched,
+    let c := run step sched (init p_finding13, []) in
+    uaf (g (fst c)) = true /\ deleted (g (fst c)) = 1 /\ trace_safe (snd c) = false /\
+    snd c = [EExtAcq true 0 2; EExtRel 0; EEvL EvNull; EEvC EvNull true;
+             EStC CsComplete FInit FValue true; EValCtor; EEvX EvWaiter; EPost;
+             EStL FValue; EValDtor true; EDealloc;
+             EExtAcq true 0 3; EExtRel 1; EStC CsAbandon FPoison FAband false].
+Proof. exists sched_finding13. vm_compute. repeat split. Qed.
